@@ -573,6 +573,29 @@ func (st *wstate) runLifetime(i int, l *scen.Lifetime) {
 					}
 				}
 			}
+			// ... and the signal must not be a false claim: a call that says it stored
+			// something (added / updated) has performed at least one write that was reported to it as successful.
+			// (Which operation failed and what the library does about it is its own business -
+			// e.g. it may ignore a failing MkdirAll when the directory exists - but "added"
+			// with every write of the call failed is not an outcome, it is a lost error.)
+			if obs == model.Added || obs == model.Updated {
+				stored := false
+				for _, op := range opsOf[key] {
+					switch op.Kind {
+					case "write", "writeat", "writefile", "rename", "link", "symlink":
+						// (a short write that reports no error is a lying disk: the library was told "ok")
+						if op.Err == "" {
+							stored = true
+						}
+					}
+				}
+				if !stored {
+					vv := viol("claimed-write-did-not-happen", i, ev.CallID, item, concProps("C20"), "call %d (%s %s) signals %q, but no write of this call succeeded (injected fault: every write of the call failed or none was made)", ev.CallID, ex.Call.API, item, obs)
+					if st.hit(vv) {
+						return
+					}
+				}
+			}
 			lf.Tally[obs]++
 			st.d.NoteDirtyCall(ex)
 			continue
